@@ -34,7 +34,7 @@ macro_rules! gcd_shape {
         }
     };
 }
-gcd_shape!(c13_q_gcd_3bit, 3, 8);
+gcd_shape!(c13_t_gcd_3bit, 3, 8);
 gcd_shape!(c13_t_gcd_4bit, 4, 10);
 gcd_shape!(c13_t_gcd_5bit, 5, 13);
 #[kani::proof]
